@@ -4,8 +4,9 @@
 //! `Bitswap::run()` runs as a task of a current-thread tokio runtime with a paused clock. The adapter
 //! plays everything around it: the sender of `InnerTransportEvent`s, the command channel of every
 //! connection, the transport manager's command channel and shared peer map, the far end of every
-//! substream. After each operation the runtime runs until nothing can make progress any more (a 40 s
-//! sleep on the paused clock: the 15 s `WRITE_TIMEOUT` of a stalled write fires on the way).
+//! substream. After each operation the runtime runs until nothing can make progress any more (rounds
+//! of 40 s on the paused clock - the 15 s `WRITE_TIMEOUT` of a stalled write fires on the way - until a
+//! round passes in which no far end saw anything happen).
 //!
 //! Operations (`p<i>` = peer number, peers 1..=3 have a dialable address):
 //!
@@ -665,18 +666,33 @@ impl Session {
     }
 
     /// Run until nothing can make progress: a slow far end that is still taking its time keeps the
-    /// protocol busy beyond one round.
+    /// protocol busy beyond one round, and a write that stalls late in a round times out in the next.
+    /// The run ends with the first round in which no far end saw anything happen.
     async fn settle(&mut self) {
+        let mut before = self.activity();
         for _ in 0..MAX_SETTLE_ROUNDS {
             tokio::time::sleep(SETTLE).await;
+            let now = self.activity();
             let busy = self.outs.values().any(|out| {
                 let s = out.shared.lock().unwrap();
                 s.sleeping && !s.dropped && !s.failed
             });
-            if !busy {
+            if !busy && now == before {
                 break;
             }
+            before = now;
         }
+    }
+
+    /// What the far ends of the outbound substreams have seen so far.
+    fn activity(&self) -> Vec<(Option<tokio::time::Instant>, usize, bool, bool, bool)> {
+        self.outs
+            .values()
+            .map(|out| {
+                let s = out.shared.lock().unwrap();
+                (s.accepted_at, s.data.len(), s.failed, s.dropped, s.waker.is_some())
+            })
+            .collect()
     }
 
     fn drain(&mut self, t0: tokio::time::Instant) -> String {
